@@ -105,6 +105,15 @@ func (tb *ATable) RegisterPropertyCallback(
 
 	// TODO: handle _time_ sanity checks, too; warn if would never be invoked.
 
+	// A renderer wrapper (TextTable, CSVTable, ...) embeds the Table it wraps,
+	// so "the table" may reach us as such a wrapper around this very table;
+	// registering upon it means registering upon the table itself.
+	if _, isCore := owner.(*ATable); !isCore {
+		if wrapped, ok := owner.(Table); ok && wrapped.Column(0) == tb.Column(0) {
+			owner = tb
+		}
+	}
+
 	switch base := owner.(type) {
 	case *ATable:
 		switch target {
